@@ -397,8 +397,8 @@ Lemma samenc_trans a b c : SameNC a b -> SameNC b c -> SameNC a c.
 Proof. unfold SameNC. intuition congruence. Qed.
 Lemma samenc_set s p v : SameNC s (set_page_chk s p v).
 Proof. unfold SameNC. repeat split; reflexivity. Qed.
-Lemma samenc_unwritten s s' p : SameNC s s' -> unwritten s' p = unwritten s p.
-Proof. intros H. unfold unwritten. destruct H as [_ [_ [_ [-> [_ [_ [_ [_ [-> _]]]]]]]]]. reflexivity. Qed.
+Lemma unwritten_same s s' p : SameNC s s' -> dbc s' p = dbc s p -> unwritten s' p = unwritten s p.
+Proof. intros H Hd. unfold unwritten. fold (dbc s' p) (dbc s p). destruct H as [_ [_ [_ [-> _]]]]. rewrite Hd. reflexivity. Qed.
 Lemma samenc_file_h s s' p : SameNC s s' -> file_h s' p = file_h s p.
 Proof. intros H. unfold file_h, file_pg. destruct H as [_ [_ [-> _]]]. reflexivity. Qed.
 Lemma unwritten_pos s p : unwritten s p = true -> 1 <= p.
@@ -457,14 +457,23 @@ Proof.
       { intros q Hq Hn. rewrite A4; [|assumption|intros Hin; apply Hn; right; assumption].
         rewrite Hd1 by assumption. destruct (N.eqb_spec q p) as [->|_]; [|reflexivity].
         exfalso. apply Hn. left. reflexivity. }
+      assert (Hu1 : forall q, 1 <= q -> (q <> p \/ unwritten s p = false) -> unwritten s1 q = unwritten s q).
+      { intros q Hq Hc. apply unwritten_same; [assumption|]. rewrite Hd1 by assumption.
+        destruct (N.eqb_spec q p) as [->|_]; [|reflexivity]. destruct Hc as [Hc|Hc]; [congruence|rewrite Hc; reflexivity]. }
       split.
-      { intros q Hq Hu. rewrite A5; [|assumption|rewrite (samenc_unwritten s s1) by assumption; assumption].
-        rewrite Hd1 by assumption. destruct (N.eqb_spec q p) as [->|_]; [|reflexivity]. rewrite Hu. reflexivity. }
+      { intros q Hq Hu. rewrite A5; [|assumption|].
+        - rewrite Hd1 by assumption. destruct (N.eqb_spec q p) as [->|_]; [|reflexivity]. rewrite Hu. reflexivity.
+        - rewrite Hu1; [assumption|assumption|]. destruct (N.eq_dec q p) as [->|Hne]; [right; assumption|left; assumption]. }
       intros Hr q Hin Hnl Hu.
       assert (r1 <> None) as Hr1 by (destruct r1; [discriminate|inversion H; subst; congruence]).
+      assert (Hq1 : 1 <= q) by (apply (unwritten_pos s); assumption).
       destruct (in_dec N.eq_dec q r0) as [Hin0|Hnin0].
-      * rewrite A6; [|assumption|assumption|rewrite El1; assumption|rewrite (samenc_unwritten s s1) by assumption; assumption].
-        apply samenc_file_h. assumption.
+      * destruct (unwritten s1 q) eqn:Eu1.
+        -- rewrite A6; [|assumption|assumption|rewrite El1; assumption|assumption]. apply samenc_file_h. assumption.
+        -- rewrite A5 by assumption. rewrite Hd1 by assumption.
+           destruct (N.eqb_spec q p) as [->|Hne].
+           ++ rewrite Hu. cbn [andb]. unfold file_h. rewrite Ef. reflexivity.
+           ++ rewrite Hu1 in Eu1; [congruence|assumption|left; assumption].
       * destruct Hin as [E|Hin]; [subst q|contradiction].
         rewrite A4; [|apply (unwritten_pos s); assumption|assumption].
         rewrite Hd1 by (apply (unwritten_pos s); assumption). rewrite N.eqb_refl, Hu. cbn [andb].
